@@ -218,6 +218,7 @@ def gen_body(rng, pnames):
         ["zq_key{0} = lambda zq_item: zq_item - {1}".format(u, a)] if pnames else ["zq_nokey{} = 0".format(u)],
         ["zq_attr{0} = {1}.real if hasattr({1}, 'real') else {2}".format(u, a, b)],
         ["print('zq_marker{0}', {1})".format(u, b)],
+        ["zq_kept{0} = {1}".format(u, a), "del {0}".format(a)] if pnames else ["zq_nodel{} = 0".format(u)],
         # a local that carries a name other interfaces use for a PARAMETER (never one of this function's own)
         (lambda o: ["{0} = {1}".format(o, u), "print('zq_other{0}', {1})".format(u, o)])(rng.choice([n for n in PNAMES if n not in pnames])),
     ]
